@@ -1,4 +1,4 @@
-import ThunderProofs.Fed.Literal
+import ThunderProofs.Fed.Normalize
 /-!
 # C06 — Federation is transparent: the gateway answers like one combined server
 
@@ -54,6 +54,52 @@ consumes exactly the results of the keys it extracted. -/
 theorem extract_stitch_aligned (h : Int → R) (xs : List R) (p : List Nat) (more : List R) :
     stitchL xs p ((extractL xs p).map h ++ more) = (applyAtL h xs p, more) :=
   stitchL_pointwise h xs p more
+
+/-- **The normalizer keeps the answer**: the combined server's answer to the normalized query
+(fragments whose type condition applies inlined recursively, `@skip` / `@include` applied per
+selection and per fragment, selections with the same response key merged with all their
+sub-selections and fragments, keys sorted) is its answer to the raw query — at every depth, for
+every repetition of aliases and fragments. -/
+theorem normalize_keeps_answer (applies : Nat → Nat → Bool) (child : Nat → Nat → Option Nat) (st : Store)
+    (wt : WTc child st) (fuel : Nat) (s : RSet) (r : Ref) :
+    den (.obj (evalSels st (normalize applies child fuel r.t s) r)) = den (.obj (evalRaw applies st fuel s r)) := by
+  simp only [den]
+  rw [normalize_correct applies child st wt fuel s r]
+
+/-- the normalizer's output is normalized: one selection per response key at every level, no
+`_federation` keys or fields (given none in the raw query) -/
+theorem normalize_is_normalized (applies : Nat → Nat → Bool) (child : Nat → Nat → Option Nat) (fuel t : Nat)
+    (s : RSet) (hs : okSet s) : Norm (normalize applies child fuel t s) :=
+  normalize_norm applies child fuel t s hs
+
+/-- **End to end on raw queries** (object types): normalize, plan, execute the plan tree, delete
+the keys — the combined server's answer to the raw query. -/
+theorem gateway_eq_monolith_raw (σ : Sch) (st : Store) (wt : WT σ st) (applies : Nat → Nat → Bool)
+    (fuel : Nat) (s : RSet) (hs : okSet s) (svc : Nat) (r : Ref) :
+    den (gateway σ st svc r (normalize applies σ.child fuel r.t s)) = den (.obj (evalRaw applies st fuel s r)) := by
+  rw [gateway_eq_monolith σ st wt _ (normalize_norm applies σ.child fuel r.t s hs) svc r]
+  exact normalize_keeps_answer applies σ.child st ⟨wt.ref, wt.refs, wt.scalar⟩ fuel s r
+
+/-! ### the normalizer before the repairs (C06-2, C06-3) -/
+
+def leaf (a : Nat) (incl : Bool) : RSel := .mk a a incl (.mk [] [])
+
+/-- C06-2: `{ b1 @skip(if: true)  b1 }` — before, the first occurrence's directive decided for both and the field was lost -/
+theorem old_first_directive_decides :
+    (normalizeOld (fun _ _ => true) (fun _ _ => none) 1 10 (.mk [leaf 5 false, leaf 5 true] [])).map Q.alias = [] ∧
+    (normalize (fun _ _ => true) (fun _ _ => none) 1 10 (.mk [leaf 5 false, leaf 5 true] [])).map Q.alias = [5] := by
+  constructor <;> rfl
+
+/-- C06-3: `{ a { y }  a { x { p }  x { q } } }` — before, of the later occurrence only the first `x` was kept and `q` was lost -/
+theorem old_dedup_loses_subselection :
+    let raw : RSet := .mk [.mk 3 3 true (.mk [leaf 4 true] []),
+                           .mk 3 3 true (.mk [.mk 6 6 true (.mk [leaf 7 true] []), .mk 6 6 true (.mk [leaf 8 true] [])] [])] []
+    let child : Nat → Nat → Option Nat := fun _ n => if n = 3 ∨ n = 6 then some 11 else none
+    let kidsOfX (l : List Q) : List (List Nat) :=
+      l.flatMap fun a => a.kids.filterMap fun x => if x.alias = 6 then some (x.kids.map Q.alias) else none
+    kidsOfX (normalizeOld (fun _ _ => true) child 3 10 raw) = [[7]] ∧
+    kidsOfX (normalize (fun _ _ => true) child 3 10 raw) = [[7, 8]] := by
+  constructor <;> rfl
 
 /-- what the planner may assume of its schema: a custom selector and the fallback pick name services that expose the field -/
 def Sch.WF (σ : Sch) : Prop :=
